@@ -72,8 +72,10 @@ def order_ok(R, upto, two_var=False):
 def sdc_configs(tier):
     if tier == 'quick':
         for nt in ('LEGENDRE', 'EQUID'):
-            for qt in ('RADAU-RIGHT', 'LOBATTO', 'GAUSS'):
+            for qt in ('RADAU-RIGHT', 'LOBATTO', 'GAUSS', 'RADAU-LEFT'):
                 for M in (1, 2, 3, 4):
+                    if qt == 'RADAU-LEFT' and (M < 2 or M > 3):
+                        continue
                     yield nt, qt, M
     else:
         for nt in NODE_TYPES:
